@@ -1,5 +1,6 @@
 (* Props/C02.v -- C02: SM83 instructions assemble to their LR35902 encoding, only to it. *)
 From Az65 Require Import Base Token Expr ExprParse Linker Asm Arch ArchTables LinkerFacts ArchSpec IsaSm83 Sm83Facts Sm83Sound Sm83Complete.
+From Az65 Require Import LinkerFacts LinkGenFacts.
 
 (* (1) every row outside the known finding (`cp r` / `cp (hl)`), for all operand bytes, decodes under
        the LR35902 opcode map to exactly what was written, with exactly the emitted length
@@ -56,3 +57,12 @@ Theorem C02_relative_field : forall d,
   (-128 <= d <= 127 -> signed8 (d mod 256) = d).
 Proof. exact rel_field_roundtrip. Qed.
 Print Assumptions C02_relative_field.
+
+(* TRANSLATOR TIE for operands that are only known at link time: the range test and the stores of the five arms of
+   Module::link, re-translated from src/linker.rs on every run, are those of the model's apply_link. *)
+Theorem C02_generated_link_arms :
+  forall st (l : Linker.link) (d : list N) (v : Z),
+    Expr.eval_top st (Linker.l_expr l) = Expr.Val v -> in_i32 v ->
+    Linker.apply_link st l d = gen_apply_link (Linker.l_kind l) (Linker.l_off l) v d.
+Proof. exact generated_link_arms_are_model_arms. Qed.
+Print Assumptions C02_generated_link_arms.
